@@ -52,6 +52,10 @@ def cases(draw):
         # >= 16 objects whose id starts with '00' switch ObjectDB.all() from one full listing to the
         # per-prefix traversal (remote size is estimated from the '00' bucket)
         "zeros": draw(st.sampled_from([0, 0, 0, 0, 20, 24])),
+        # the collected store's own algorithm (legacy stores are named md5-dos2unix)
+        "algo": draw(st.sampled_from(["md5", "md5", "md5-dos2unix"])),
+        # name carried by the foreign-algorithm used ids
+        "foreign": draw(st.sampled_from(["sha256", "md5-family", "md5-family"])),
     }
 
 
@@ -66,10 +70,13 @@ def run_case(case, ctx):
 
     with ctx.tmpdir() as d:
         store = os.path.join(d, "store")
-        odb = ops.make_odb(case["kind"], store)
+        algo = case.get("algo", "md5")
+        other = "md5-dos2unix" if algo == "md5" else "md5"
+        foreign = other if case.get("foreign") == "md5-family" else "sha256"
+        odb = ops.make_odb(case["kind"], store, hash_name=algo)
         cache = None
         if case["sep_cache"]:
-            cache = ops.make_odb("local", os.path.join(d, "cache"))
+            cache = ops.make_odb("local", os.path.join(d, "cache"), hash_name=algo)
         dir_ids = []
         for i, t in enumerate(case["trees"]):
             src = os.path.join(d, f"t{i}")
@@ -99,34 +106,34 @@ def run_case(case, ctx):
                 os.chmod(p, 0o644)
                 os.unlink(p)
 
-        problems, before = ref.audit_local_store(store)
+        problems, before = ref.audit_local_store(store, algo)
         if problems:
             return Result([Viol("setup-audit", f"store not well-formed after setup: {problems[:2]}")])
         cache_contents = before
         if cache is not None:
-            _, cache_contents = ref.audit_local_store(cache.path)
+            _, cache_contents = ref.audit_local_store(cache.path, algo)
         present = sorted(before)
 
         used, used_same, labels = [], set(), set()
         for kind, idx in case["used"]:
             if kind == "present" and present:
                 oid = present[idx % len(present)]
-                used.append(ops.hi(oid))
+                used.append(ops.hi(oid, algo))
                 used_same.add(oid)
             elif kind == "dir" and dir_ids:
                 oid = dir_ids[idx % len(dir_ids)]
-                used.append(ops.hi(oid))
+                used.append(ops.hi(oid, algo))
                 used_same.add(oid)
                 labels.add("used-dir")
             elif kind == "absent":
                 oid = ABSENT[idx % len(ABSENT)]
                 if oid not in before:
-                    used.append(ops.hi(oid))
+                    used.append(ops.hi(oid, algo))
                     used_same.add(oid)
                     labels.add("absent-id")
             elif kind == "foreign" and present:
                 oid = present[idx % len(present)]
-                used.append(ops.hi(oid, "sha256"))
+                used.append(ops.hi(oid, foreign))
                 labels.add("foreign-algo")
 
         keep = set(used_same)
@@ -144,7 +151,7 @@ def run_case(case, ctx):
 
         target = odb
         if case["read_only"]:
-            target = ops.make_odb(case["kind"], store, read_only=True)
+            target = ops.make_odb(case["kind"], store, read_only=True, hash_name=algo)
         viols = []
         raised = None
         ret = None
@@ -152,7 +159,7 @@ def run_case(case, ctx):
             ret = gc(target, used, cache_odb=cache, shallow=case["shallow"], dry=case["dry"])
         except ObjectDBPermissionError as exc:
             raised = exc
-        _, after = ref.audit_local_store(store)
+        _, after = ref.audit_local_store(store, algo)
 
         if case["read_only"]:
             if raised is None:
@@ -186,7 +193,10 @@ def run_case(case, ctx):
             has_dir and expected_removed and used
             and (not case["shallow"] or "absent-id" in labels or "foreign-algo" in labels)
         )
+        if "foreign-algo" in labels and foreign != "sha256":
+            labels.add("foreign-algo-is-other-md5-flavour")
         classes = sorted(labels) + [
+            f"algo={algo}",
             f"kind={case['kind']}",
             "shallow" if case["shallow"] else "expanding",
             "dry" if case["dry"] else "real",
